@@ -299,8 +299,13 @@ def r4(ctx):
                 note(kind, okrecv and okg and oka and okp, e6.show(B, 2)[:140])
                 want_push = [e6.mk_proj(B, 0), e6.mk_proj(B, 1), e6.mk_proj(B, 2)]
             elif kind == "Maxpool":
-                okm = (len(args) == 3 and isinstance(args[2], tuple) and args[2][0] == "payload" and args[2][2] == "Option::Some" and isinstance(args[2][1], tuple)
-                       and args[2][1][0] == "idx" and args[2][1][1] == MAXP and e6.lin(args[2][1][2]) == want_idx)
+                rec_ = None
+                if len(args) == 3 and isinstance(args[2], tuple) and args[2][0] == "payload" and args[2][2] == "Option::Some":
+                    rec_ = args[2][1]                 # `if let Some(max) = &maxpools[idx]` / match
+                elif len(args) == 3:
+                    u_ = e6.is_call(args[2], "unwrap", 1) or e6.is_call(args[2], "expect")
+                    rec_ = u_[0] if u_ else None      # maxpools[idx].as_ref().unwrap()
+                okm = isinstance(rec_, tuple) and rec_[0] == "idx" and rec_[1] == MAXP and e6.lin(rec_[2]) == want_idx
                 note(kind, okrecv and okg and okm, e6.show(B, 2)[:140])
                 want_push = [B, None, ("var", "Option::None", ())]
             else:
